@@ -227,6 +227,16 @@ class Ctx:
             cmd = ["go", "test", "-c", "-tags", tags, "-o", out]
         else:
             cmd = ["go", "build", "-tags", tags, "-o", out]
+        if REPO != "/repo":
+            # development aid (bin/mutant-eval): build against another checkout of anndb through an
+            # alternate go.mod; the registered checks always run with REPO = /repo
+            alt = self.path("go.alt.mod")
+            with open(os.path.join(HARNESS, "go.mod")) as f:
+                txt = f.read().replace("=> /repo", "=> " + REPO)
+            with open(alt, "w") as f:
+                f.write(txt)
+            shutil.copy(os.path.join(HARNESS, "go.sum"), self.path("go.alt.sum"))
+            cmd += ["-modfile", alt]
         if race:
             cmd.append("-race")
         cmd.append("./" + pkg)
